@@ -149,6 +149,12 @@ def iter_len(ctx, it):
         return Int(0, s.ty)
     if isinstance(it, (MapI, EnumerateI, RevI, ClonedI)):
         return iter_len(ctx, it.inner)
+    if isinstance(it, TakeI):
+        ln = iter_len(ctx, it.inner)
+        if ln is None:
+            return None
+        from models_core import val_min
+        return val_min(ctx, ln, it.n)
     return None
 
 
@@ -293,6 +299,27 @@ class TakeI(Iter):
             return STOP
         self.n = ctx.m.int_binop('Sub', self.n, Int(1, 'usize'))
         return nxt(ctx, self.inner)
+
+
+def _take_nxt_back(self, ctx):
+    if ctx.branch(ctx.m.int_binop('Eq', self.n, Int(0, 'usize'))):
+        return STOP
+    ln = iter_len(ctx, self.inner)
+    if ln is None:
+        raise Unsupported('rev of take over an iterator of unknown length')
+    # drop the elements beyond the first n from the back
+    while ctx.branch(ctx.m.int_binop('Gt', ln, self.n)):
+        if nxt_back(ctx, self.inner) is STOP:
+            return STOP
+        ln = ctx.m.int_binop('Sub', ln, Int(1, 'usize'))
+    v = nxt_back(ctx, self.inner)
+    if v is STOP:
+        return STOP
+    self.n = ctx.m.int_binop('Sub', self.n, Int(1, 'usize'))
+    return v
+
+
+TakeI.nxt_back = _take_nxt_back
 
 
 class StepByI(Iter):
